@@ -80,10 +80,12 @@ VERUS_UNITS["alg_semiring"] = {
 KANI_UNITS = {
     "vk_lat": {
         "mode": "dep", "crate": "contracts/kani/vk_lat", "props": LAT,
-        "harness_props": [(r"^alg::", ["C09"])],
+        "harness_props": [(r"^alg::", ["C09"]), (r"^coll3::tombstone", ["C05", "C02", "C03"]), (r"^coll3::atomize", ["C06"]),
+                          (r"^coll3::(cartesian|keyed)", ["C07"])],
         "what": "lattices twins (C01-C04 executable contract forms) on monomorphic instantiations; Conflict::merge; Max/Min over char, (); Point",
         "instantiation": "u8 / char / () payloads, nestings of depth <= 2; loop-free => complete for the instantiation",
         "bounded": {r"^coll::": "collection operands of <= 2 elements (cheap representations + harness TinySet/TinyMap receivers), keys/elements over all u8",
+                    r"^coll3::": "operands of <= 2 elements over a 4-value domain; TinySet stands for any Set/TombstoneSet implementation",
                     r"^coll2::vec": "vectors of length <= 2 over Max<u8>",
                     r"^coll2::union_find": "item domain {0,1,2}, reachable states after <= 2 unions from empty, receiver TinyMap",
                     r"^alg::": "carrier size N <= 3 (all operation tables), loops bounded by N^3: complete per N"},
@@ -102,7 +104,8 @@ KANI_UNITS["ov_pipes"] = {
     "harness_props": [(r"^push::", ["C12"]), (r"symmetric_hash_join", ["C13"]), (r"send_push|send_sink", ["C11", "C12"])],
     "what": "dfir_pipes compiled in place (rsync overlay of the working tree); harness child modules appended to each combinator's file",
     "instantiation": "Item = u8, Meta = (), havoc upstreams/downstreams; loop-free step contracts => complete for the instantiation",
-    "bounded": {r"_trace$": "trace of <= 5 calls from the initial state", r"_loop$": "internal loop unwound: <= 3 skipped items / inner length <= 3"},
+    "bounded": {r"_trace$": "trace of <= 5 calls from the initial state", r"_loop$": "internal loop unwound: <= 3 skipped items / inner length <= 3",
+                r"vk_slow": "one key in a real std HashMap with a constant hasher; <= 2 finalize calls"},
 }
 
 KANI_UNITS["ov_sink"] = {
@@ -143,18 +146,18 @@ PROPS = {
                                 "coll2::union_find_merge"], ("thorough",))],
     "C02": [("verus", "lat_ord"), ("verus", "lat_wrap"), ("verus", "lat_pair"), ("verus", "lat_dom"),
             ("kani", "vk_lat", ["::changed", "point_u8", "coll::set_merge", "coll::map_merge_option", "coll::map_merge_singleton",
-                                "coll2::vec_union_merge"], ("quick",)),
-            ("kani", "vk_lat", ["::changed", "point_u8", "coll::set_merge", "coll::map_merge", "coll2::vec_union_merge",
+                                "coll2::vec_union_merge", "coll3::tombstone_set_merge", "dompair_incomparable_keys"], ("quick",)),
+            ("kani", "vk_lat", ["::changed", "coll3::tombstone_set_merge", "coll3::tombstone_map_merge", "dompair_incomparable_keys", "point_u8", "coll::set_merge", "coll::map_merge", "coll2::vec_union_merge",
                                 "coll2::union_find_union", "coll2::union_find_merge"], ("thorough",))],
     "C03": [("verus", "lat_ord"), ("verus", "lat_wrap"), ("verus", "lat_pair"), ("verus", "lat_dom"),
             ("kani", "vk_lat", ["::order", "::bot", "::top", "c03_withbot_unit_is_top", "point_u8", "coll::set_cmp", "coll::set_bot_top_from",
-                                "coll::map_bot_top_from", "coll2::vec_union_cmp"], ("quick",)),
+                                "coll::map_bot_top_from", "coll::set_bot_every", "coll2::vec_union_cmp", "coll3::tombstone_set_cmp"], ("quick",)),
             ("kani", "vk_lat", ["::order", "::bot", "::top", "c03_withbot_unit_is_top", "point_u8", "coll::set_cmp", "coll::set_bot_top_from",
-                                "coll::map_bot_top_from", "coll::map_cmp", "coll2::vec_union_cmp", "coll2::union_find_cmp"], ("thorough",))],
+                                "coll::map_bot_top_from", "coll::set_bot_every", "coll::map_cmp", "coll2::vec_union_cmp", "coll2::union_find_cmp", "coll3::tombstone_set_cmp"], ("thorough",))],
     "C04": [("verus", "lat_ord"), ("verus", "lat_wrap"), ("verus", "lat_pair"), ("verus", "lat_dom"),
-            ("kani", "vk_lat", ["::from", "::aci", "point_u8", "coll::set_merge", "coll::set_bot_top_from", "coll::map_merge_option",
+            ("kani", "vk_lat", ["::from", "::aci", "point_u8", "dompair_incomparable_keys", "coll::set_merge", "coll::set_bot_top_from", "coll::map_merge_option",
                                 "coll::map_merge_singleton", "coll::map_bot_top_from", "coll2::vec_union_merge", "coll2::vec_union_cmp"], ("quick",)),
-            ("kani", "vk_lat", ["::from", "::aci", "point_u8", "coll::set_merge", "coll::set_bot_top_from", "coll::map_merge",
+            ("kani", "vk_lat", ["::from", "::aci", "point_u8", "dompair_incomparable_keys", "coll::set_merge", "coll::set_bot_top_from", "coll::map_merge",
                                 "coll::map_bot_top_from", "coll2::vec_union_merge", "coll2::vec_union_cmp", "coll2::union_find_union",
                                 "coll2::union_find_merge"], ("thorough",))],
 }
@@ -169,7 +172,11 @@ PROPS["C15"] = [("kani", "vk_merge", ["merge_", "tagged_"], ("quick", "thorough"
 
 PROPS["C11"] = [("kani", "ov_pipes", ["pull::"], ("quick", "thorough"))]
 
-PROPS["C12"] = [("kani", "ov_pipes", ["push::", "pull::send_push", "pull::send_sink"], ("quick", "thorough"))]
+_PUSH_QUICK = ["push::%s::vk_harness" % m for m in (
+    "map", "inspect", "filter", "filter_map", "fanout", "unzip", "demux_var", "flat_map", "flatten", "for_each", "persist",
+    "accumulate", "sort", "vec_push", "sink", "sink_compat")] + ["pull::send_push", "pull::send_sink"]
+PROPS["C12"] = [("kani", "ov_pipes", _PUSH_QUICK, ("quick",)),
+                ("kani", "ov_pipes", ["push::", "pull::send_push", "pull::send_sink"], ("thorough",))]
 
 PROPS["C14"] = [("kani", "ov_sink", ["vk_harness"], ("quick", "thorough"))]
 
@@ -181,6 +188,14 @@ PROPS["C13"] = [("kani", "ov_pipes", ["symmetric_hash_join"], ("quick", "thoroug
 
 PROPS["C10"] = [("kani", "vk_var", ["harness::"], ("quick", "thorough"))]
 
+PROPS["C05"] = [("kani", "vk_lat", ["coll3::tombstone_set"], ("quick",)),
+                ("kani", "vk_lat", ["coll3::tombstone"], ("thorough",))]
+PROPS["C06"] = [("kani", "vk_lat", ["coll3::atomize_set_union"], ("quick",)),
+                ("kani", "vk_lat", ["coll3::atomize"], ("thorough",))]
+PROPS["C07"] = [("verus", "lat_pair"),
+                ("kani", "vk_lat", ["coll3::cartesian_product_is_product"], ("quick",)),
+                ("kani", "vk_lat", ["coll3::cartesian", "coll3::keyed"], ("thorough",))]
+
 LEVEL = {
-    "C01": "other", "C02": "other", "C03": "other", "C04": "other", "C09": "other", "C15": "other", "C11": "other", "C12": "other", "C14": "other", "C13": "other", "C10": "other",
+    "C01": "other", "C02": "other", "C03": "other", "C04": "other", "C09": "other", "C05": "other", "C06": "other", "C07": "other", "C15": "other", "C11": "other", "C12": "other", "C14": "other", "C13": "other", "C10": "other",
 }
